@@ -311,6 +311,21 @@ type Config struct {
 	// event of the schedule, never a wall-clock accident.
 	Tick     time.Duration
 	MaxTicks int
+	// Eager lists goroutine ids (an entry covers the goroutine and everything it spawns) that are
+	// not part of the explored choice: whenever one of them is enabled it runs at once, up to its
+	// next blocking point, and the step is no branch point.  A scenario uses it to keep background
+	// goroutines it does not study out of the interleaving space; what is explored is every
+	// schedule of the remaining goroutines against that fixed behaviour of the eager ones.
+	Eager []string
+}
+
+func (cfg *Config) eager(id string) bool {
+	for _, p := range cfg.Eager {
+		if id == p || strings.HasPrefix(id, p+".") {
+			return true
+		}
+	}
+	return false
 }
 
 // ErrDivergence is the panic value for a replayed choice that is out of range.
@@ -442,6 +457,14 @@ func Run(cfg Config, setup func() (init func(), threads []Thread, cleanup func()
 		if step >= maxSteps {
 			e.MaxSteps = true
 			break
+		}
+		if len(cfg.Eager) > 0 {
+			for _, g := range c {
+				if cfg.eager(g.ID) {
+					c = []*G{g}
+					break
+				}
+			}
 		}
 		k := 0
 		if step < len(cfg.Prefix) {
